@@ -110,11 +110,11 @@ REVIEWED = {'tf_pwa/amp/amp.py::AbsPDF.mask_params::mask_params': ((1,),
                                                                       'primitive the blocks are built from)'),
  'tf_pwa/amp/amp.py::BaseAmplitudeModel.temp_total_gls_one::=mask_factor': ((2,), 'model:glsOne (block, driven)'),
  'tf_pwa/amp/amp.py::BaseAmplitudeModel.temp_used_res::temp_used_res': ((1,), 'model:usedRes (block, driven)'),
- 'tf_pwa/amp/amp.py::CachedShapeAmplitudeModel.pdf::set_used_chains': ((2,),
-                                                                       'excluded:NOT COVERED - internals of the cached_shape amplitude model / preprocessor (save chains_idx; '
-                                                                       'set_used_chains(subset); build_params_vector; set_used_chains(saved), no finally, not_full recomputed from the '
-                                                                       'length): the unpatched partial_weight pattern; needs a cached_shape model to drive, not built here. Candidate defect '
-                                                                       'of the same class as fix_C17_used_chains.diff'),
+ 'tf_pwa/amp/amp.py::CachedShapeAmplitudeModel.pdf::keep_used_chains': ((0, 1), 'model:keepChains (block of Model/OverrideY.lean; present after fixes/C17-cached_shape.diff; driven on the cached_shape rig C by harness/c17_y.py)'),
+ 'tf_pwa/amp/amp.py::CachedShapeAmplitudeModel.pdf::set_used_chains': ((2, 1),
+                                                                       'model:pwBase pattern (as it is: save chains_idx; set_used_chains(subset); build_params_vector; set_used_chains(saved), no finally, '
+                                                                       'not_full recomputed from the length = the unpatched partial_weight frame; after fixes/C17-cached_shape.diff: keep_used_chains). '
+                                                                       'Driven on the cached_shape rig C (harness/c17_y.py), normal exit and build_params_vector raising, 5 entry states'),
  'tf_pwa/amp/core.py::AmpDecayChain.__init__::=mask_factor': ((1,), 'excluded:constructor initialises the attribute'),
  'tf_pwa/amp/core.py::DecayChain.factor_iteration::mask_params': ((1,), 'model:factorIter (driven)'),
  'tf_pwa/amp/core.py::DecayGroup.__init__::=chains_idx': ((1,), 'excluded:constructor initialises the attribute'),
@@ -135,16 +135,13 @@ REVIEWED = {'tf_pwa/amp/amp.py::AbsPDF.mask_params::mask_params': ((1,),
  'tf_pwa/amp/core.py::DecayGroup.temp_used_res::set_used_res': ((1,), 'model:usedRes (block, driven)'),
  'tf_pwa/amp/core.py::HelicityDecay.__init__::=mask_factor': ((1,), 'excluded:constructor initialises the attribute'),
  'tf_pwa/amp/core.py::variable_scope::temp_config': ((1,), 'model:tempConfig (block, driven; variable_scope / using_amplitude are temp_config with a fixed key)'),
- 'tf_pwa/amp/preprocess.py::CachedShapePreProcessor.build_cached::set_used_chains': ((2,),
-                                                                                     'excluded:NOT COVERED - internals of the cached_shape amplitude model / preprocessor (save chains_idx; '
-                                                                                     'set_used_chains(subset); build_params_vector; set_used_chains(saved), no finally, not_full recomputed '
-                                                                                     'from the length): the unpatched partial_weight pattern; needs a cached_shape model to drive, not built '
-                                                                                     'here. Candidate defect of the same class as fix_C17_used_chains.diff'),
+ 'tf_pwa/amp/preprocess.py::CachedShapePreProcessor.build_cached::keep_used_chains': ((0, 1), 'model:keepChains (block of Model/OverrideY.lean; present after fixes/C17-cached_shape.diff; driven on rig C by harness/c17_y.py)'),
+ 'tf_pwa/amp/preprocess.py::CachedShapePreProcessor.build_cached::set_used_chains': ((2, 1),
+                                                                                     'model:pwBase pattern around a glsOne block (as it is: no finally, not_full recomputed; after '
+                                                                                     'fixes/C17-cached_shape.diff: keep_used_chains). Driven on rig C through config.data.cal_angle (harness/c17_y.py)'),
  'tf_pwa/amp/preprocess.py::CachedShapePreProcessor.build_cached::temp_total_gls_one': ((1,),
-                                                                                        'excluded:NOT COVERED - internals of the cached_shape amplitude model / preprocessor (save '
-                                                                                        'chains_idx; set_used_chains(subset); build_params_vector; set_used_chains(saved), no finally, '
-                                                                                        'not_full recomputed from the length): the unpatched partial_weight pattern; needs a cached_shape '
-                                                                                        'model to drive, not built here. Candidate defect of the same class as fix_C17_used_chains.diff'),
+                                                                                        'model:glsOne / OverrideY.glsOneObjs (per-object flags, shared decay object; theorem restore_shared_objects). '
+                                                                                        'Driven on rig C (harness/c17_y.py)'),
  'tf_pwa/app/fit.py::fit::set_params': ((1,),
                                         'excluded:fitting / likelihood evaluation at a point: moving the parameters is the purpose (FCN(x) sets x); inside likelihood_profile and '
                                         'get_params_error these calls are modelled as `havocTr`'),
@@ -158,9 +155,9 @@ REVIEWED = {'tf_pwa/amp/amp.py::AbsPDF.mask_params::mask_params': ((1,),
                                                                                            'excluded:model construction / constraints from the configuration (C19) and the Variable API '
                                                                                            'whose purpose is to change values or trainability'),
  'tf_pwa/config_loader/config_loader.py::ConfigLoader.attach_fix_params_error::set_fix': ((2,),
-                                                                                          'excluded:NOT COVERED - frees the given fixed parameters, computes the Hessian, fixes them again '
-                                                                                          '(no finally; set_fix appends to trainable_vars, so the order is kept only because they are '
-                                                                                          're-fixed); needs real data + Hessian, not driven'),
+                                                                                          'model:likeProf-style setFix pair (free the given fixed parameters, Hessian, fix them again; as it is no '
+                                                                                          'finally; fixes/C17-attach_fix_params_error.diff puts the re-fixing in finally). Driven on rig B with a '
+                                                                                          'counting stub for the Hessian (harness/c17_y.py): normal exit, Hessian raising, a bounded parameter'),
  'tf_pwa/config_loader/config_loader.py::ConfigLoader.free_for_extended::set_fix': ((1,),
                                                                                     'excluded:model construction / constraints from the configuration (C19) and the Variable API whose '
                                                                                     'purpose is to change values or trainability'),
@@ -221,11 +218,11 @@ REVIEWED = {'tf_pwa/amp/amp.py::AbsPDF.mask_params::mask_params': ((1,),
  'tf_pwa/fitfractions.py::cal_fitfractions_no_grad::keep_used_chains': ((1,), 'via:calFF (statement-for-statement the same selection handling as cal_fitfractions; not driven separately)'),
  'tf_pwa/fitfractions.py::cal_fitfractions_no_grad::set_used_res': ((3,), 'via:calFF (statement-for-statement the same selection handling as cal_fitfractions; not driven separately)'),
  'tf_pwa/model/custom.py::SimpleNllFracModel.eval_normal_factors::mask_params': ((2,),
-                                                                                 'model:evalNormalFactors (derived program, proved: restore_eval_normal_factors; not driven: needs a '
-                                                                                 'constrained-fraction likelihood model)'),
+                                                                                 'model:evalNormalFactors (derived program, proved: restore_eval_normal_factors; driven on rig B by '
+                                                                                 'harness/c17_y.py)'),
  'tf_pwa/model/custom.py::SimpleNllFracModel.eval_normal_factors::temp_used_res': ((2,),
-                                                                                   'model:evalNormalFactors (derived program, proved: restore_eval_normal_factors; not driven: needs a '
-                                                                                   'constrained-fraction likelihood model)'),
+                                                                                   'model:evalNormalFactors (derived program, proved: restore_eval_normal_factors; driven on rig B by '
+                                                                                 'harness/c17_y.py)'),
  'tf_pwa/model/model.py::BaseModel.grad_hessp_batch::assign': ((1,),
                                                                'excluded:likelihood model internals: assign in the batched-gradient helpers write gradient accumulators / restore values '
                                                                '(C07/C08)'),
